@@ -11,7 +11,10 @@ def run(res, work, tier, seed):
     vlib.tallycore(work, res, "WeakFlagBeforeValue", expect="*", **dict(LOOP, WeakFlagBeforeValue="TRUE"))
     vlib.tallycore(work, res, "WeakLoadBeforeSwap", expect="*", **dict(LOOP, WeakLoadBeforeSwap="TRUE"))
     if tier == "thorough":
-        vlib.tallycore(work, res, "C02: 2 updates || loop (3 ticks) || root Close", **dict(LOOP, MaxTicks=3, Closers='{"z1"}'))
+        # n.b. no configuration with a root Close here: an Update that is in flight when Close is called is promised nothing
+        # (C08 promises what had returned before the call), and once the root is closed "the first pass afterwards" of C02
+        # does not exist - GaugeFresh is not an invariant of such behaviours (TLC shows the update / Close race in 46 steps).
+        vlib.tallycore(work, res, "C02: 2 updates || report loop (3 ticks) + quiescent pass", **dict(LOOP, MaxTicks=3))
         # recorded observation (DESIGN.md section 9): with two *overlapping* passes over a live gauge the design itself can leave a stale value
         vlib.tallycore(work, res, "observation: two overlapping explicit passes leave a stale value (not reachable through the public API after the C08 fix)",
                        expect="GaugeFresh", Script="ScriptC02")
